@@ -60,7 +60,8 @@ BAR_WF_POST = ("target-wf", "final(self).draw_target.wf2()")
 BAR_DRAW = dict(file="src/state.rs", container="BarState", name="draw", ret="r",
                 sig_rewrites=[IO_RESULT],
                 requires=BAR_REQ,
-                ensures=[("frame-logical", "logical_same(*old(self), *final(self))"), BAR_WF_POST])
+                ensures=[("frame-logical", "logical_same(*old(self), *final(self))"), BAR_WF_POST,
+                         ("estimator-untouched", "final(self).state.est == old(self).state.est")])
 
 BAR_UPDATE_AND_DRAW = dict(file="src/state.rs", container="BarState", name="update_estimate_and_draw",
                            requires=BAR_REQ,
@@ -79,6 +80,7 @@ BAR_RESET = dict(file="src/state.rs", container="BarState", name="reset",
                      ("C07-reset-partial", "!(mode is All) ==> final(self).state.pos.pos@ == old(self).state.pos.pos@ && final(self).state.status == old(self).state.status"),
                      ("C07-len-untouched", "final(self).state.len == old(self).state.len"),
                      ("elapsed", "(mode is All || mode is Elapsed) ==> final(self).state.started == now"),
+                     ("C09-estimator-forgets-everything-before-the-reset-instant", "final(self).state.est.anchor() == now"),
                      ("frame", "bar_texts_same(*old(self), *final(self)) && final(self).state.tick == old(self).state.tick"),
                  ])
 
